@@ -824,6 +824,47 @@ def expand_combinators(raw, raws, max_n=40):
             a_false = _new_block(raw, [_assign(dest, _agg(OPT, 0, 'None', [U], []), t)], dict(g, k='goto', target=tgt), b['cleanup'])
             b['term'] = dict(g, k='switch', discr=args[0], discr_ty='bool', targets=[['0', a_false]], otherwise=a_true, model=best)
             n += 1
+        elif fn['def'] == 'std::iter::Iterator::try_for_each' and len(args) == 2 and args[0].get('k') in ('move', 'copy') and args[0]['place']['ty'].startswith('&mut '):
+            # it.try_for_each(|x| -> Option<()> / Result<(), E>)  ==  for x in it { f(x)? }  (the receiver is `&mut iter`)
+            cp = _closure_of(raw, args[1])
+            if cp is None or cp not in raws or raws[cp]['arg_count'] != 2:
+                continue
+            rty = raws[cp]['locals'][0]['ty']
+            rh, rg = _split_generics(rty)
+            if rh not in (OPT, RES) or dest['ty'] != rty:
+                continue
+            item_ty = raws[cp]['locals'][2]['ty']
+            oty = '%s<%s>' % (OPT, item_ty)
+            nxt = _new_local(raw, oty, OPT)
+            res = _new_local(raw, rty, rh)
+            d = _new_local(raw, 'isize')
+            d2 = _new_local(raw, 'isize')
+            mty = args[0]['place']['ty']
+            hdr = _new_block(raw, [], None, b['cleanup'])
+            sw = _new_block(raw, [_assign(_loc(d, 'isize'), {'k': 'discr', 'place': _loc(nxt, oty)}, t)], None, b['cleanup'])
+            unreach = _new_block(raw, [], dict(g, k='unreachable'), b['cleanup'])
+            unit = {'k': 'const', 'ty': '()', 'text': '()'}
+            done = _new_block(raw, [_assign(dest, _agg(rh, 1 if rh == OPT else 0, 'Some' if rh == OPT else 'Ok', rg, [unit]), t)], dict(g, k='goto', target=tgt), b['cleanup'])
+            body = _new_block(raw, [], dict(g, k='unreachable'), b['cleanup'])
+            chk = _new_block(raw, [_assign(_loc(d2, 'isize'), {'k': 'discr', 'place': _loc(res, rty)}, t)], None, b['cleanup'])
+            if rh == OPT:
+                stop = _new_block(raw, [_assign(dest, _agg(OPT, 0, 'None', rg, []), t)], dict(g, k='goto', target=tgt), b['cleanup'])
+                raw['blocks'][chk]['term'] = dict(g, k='switch', discr={'k': 'move', 'place': _loc(d2, 'isize')}, discr_ty='isize', targets=[['0', stop], ['1', hdr]], otherwise=unreach, model='try_for_each')
+            else:
+                stop = _new_block(raw, [_assign(dest, _agg(RES, 1, 'Err', rg, [{'k': 'move', 'place': _field(_loc(res, rty), 1, 'Err', RES, rg[1] if len(rg) > 1 else '?')}]), t)],
+                                  dict(g, k='goto', target=tgt), b['cleanup'])
+                raw['blocks'][chk]['term'] = dict(g, k='switch', discr={'k': 'move', 'place': _loc(d2, 'isize')}, discr_ty='isize', targets=[['0', hdr], ['1', stop]], otherwise=unreach, model='try_for_each')
+            text = '<%s as std::iter::Iterator>::next' % mty
+            raw['blocks'][hdr]['term'] = dict(g, k='call', func={'k': 'const', 'ty': text, 'text': text, 'fn': {
+                'def': 'std::iter::Iterator::next', 'args': [mty[5:]], 'local': False, 'krate': 'core', 'trait': 'std::iter::Iterator', 'self_ty': mty[5:], 'name': 'next',
+                'method': True, 'recv': '&mut Self', 'sig_inputs': ['&mut Self'], 'sig_output': 'std::option::Option<Self::Item>', 'resolved': None}},
+                fn_ty=text, indirect=False, args=[{'k': 'copy', 'place': copy.deepcopy(args[0]['place'])}], dest=_loc(nxt, oty), target=sw, unwind=uw)
+            raw['blocks'][sw]['term'] = dict(g, k='switch', discr={'k': 'move', 'place': _loc(d, 'isize')}, discr_ty='isize', targets=[['0', done], ['1', body]], otherwise=unreach,
+                                             model='try_for_each')
+            if not _apply(raw, raws, body, args[1], [{'k': 'move', 'place': _field(_loc(nxt, oty), 1, 'Some', OPT, item_ty)}], _loc(res, rty), chk, uw, t):
+                continue
+            b['term'] = dict(g, k='goto', target=hdr, model='try_for_each')
+            n += 1
         elif fn['def'] == 'std::iter::Iterator::for_each' and len(args) == 2 and args[0].get('k') in ('move', 'copy'):
             cp = _closure_of(raw, args[1])
             if cp is None or cp not in raws or raws[cp]['arg_count'] != 2:
